@@ -12,6 +12,7 @@ theorem parseAttObj_ok {val : Bytes} {ao : AttObj} (h : parseAttObj val = .ok ao
       Cbor.lookupText kvs "authData" = some ao.authDataRaw ∧
       authDataBytesOf ao.authDataRaw = .ok adBytes ∧
       parseAuthData adBytes = .ok ao.authData ∧
+      ao.attStmtRaw = Cbor.lookupText kvs "attStmt" ∧
       (match Cbor.lookupText kvs "attStmt" with
        | some s => parseAttStmt s = .ok ao.attStmt
        | none => ao.attStmt = AttStmt.empty) := by
@@ -28,7 +29,7 @@ theorem parseAttObj_ok {val : Bytes} {ao : AttObj} (h : parseAttObj val = .ok ao
     rw [except_bind_ok] at h; obtain ⟨stmt, hstmt, h⟩ := h
     have : ao = _ := (Except.ok.inj h).symm
     subst this
-    refine ⟨kvs, adBytes, hv, someOr_ok.mp hfmt, someOr_ok.mp hraw, hb, had, ?_⟩
+    refine ⟨kvs, adBytes, hv, someOr_ok.mp hfmt, someOr_ok.mp hraw, hb, had, rfl, ?_⟩
     unfold attStmtOf at hstmt
     cases hl : Cbor.lookupText kvs "attStmt" with
     | none => rw [hl] at hstmt; cases hstmt; rfl
@@ -46,14 +47,15 @@ theorem parseAttObj_ok {val : Bytes} {ao : AttObj} (h : parseAttObj val = .ok ao
 recognised statement member. -/
 theorem verifyFormat_ok {W : World} {fmt : Cbor} {ao : AttObj} {att : AttestedCred} {cdj : Bytes}
     {roots : List Root} (h : runM W (verifyFormat fmt ao att cdj roots) = .ok ()) :
-    ∃ f, fmtText fmt = some f ∧ f ∈ knownFormats ∧ (f = "none" → ao.attStmt.anySet = false) := by
+    ∃ f, fmtText fmt = some f ∧ f ∈ knownFormats ∧
+      (f = "none" → ao.attStmt.anySet = false ∧ cborTruthy ao.attStmtRaw = false) := by
   unfold verifyFormat at h
   split at h
   · rename_i hf
     refine ⟨"none", hf, by decide, fun _ => ?_⟩
     unfold reject at h
-    cases hs : ao.attStmt.anySet with
-    | false => rfl
+    cases hs : (ao.attStmt.anySet || cborTruthy ao.attStmtRaw) with
+    | false => simpa using hs
     | true => rw [hs] at h; simp at h
   · rename_i hf; exact ⟨_, hf, by decide, fun hn => absurd hn (by decide)⟩
   · rename_i hf; exact ⟨_, hf, by decide, fun hn => absurd hn (by decide)⟩
